@@ -36,7 +36,7 @@ ASSUMPTIONS = [
     "a PID is not recycled within one clock tick (psutil's documented assumption): every spawn advances the model clock",
 ]
 MANIFEST = {
-    "level_text": "Machine-checked Lean 4 proof over a model of psutil's process-identity machinery (Process._init/_get_ident/create_time/is_running/_raise_if_pid_reused/_send_signal/setters + _pslinux boot_time/BOOT_TIME) and a simulated kernel: by induction over ALL histories of spawn/exit/reap/PID-reuse/tick/clock-step events and interleaved psutil calls, every effect in the log was delivered to the incarnation the asking object was built for, under exactly the object's PID, signals never to PID<=0 (C01_no_wrong_owner, C01_never_group), a call adds at most one effect carrying exactly the requested signal/values (C01_exact_args, signalMap_correct), a call through an object whose incarnation lost its PID raises NoSuchProcess(pid) and leaves the log unchanged — the kernel is not even asked — (C01_recycled_raises_NSP), and a live incarnation is not refused (C01_live_signal_delivered). The kernel's permission outcome is an input of every effect (histories contain events that make the kernel refuse a PID with EPERM or EACCES and allow it again): a refused os.kill / setpriority / ioprio_set / sched_setaffinity / prlimit is logged as an attempt with its errno, so C01_no_wrong_owner and C01_exact_args also cover what psutil ASKED the kernel for; on a live incarnation exactly one attempt is made and the caller gets AccessDenied(pid) instead of a normal return (C01_live_signal_delivered / C01_live_setter_applied, parametrised by the kernel's answer); in any state a call returns normally iff one OS call was made and carried out, a refused one is AccessDenied(pid), nothing is retried (C01_outcome_truthful); a refusal sets no sticky flag (C02's theorems range over these histories). Outside the property's quantifier (characterisation, not findings): when /proc/pid/stat cannot be opened, Process._init keeps `_ident = (pid, None)` — modelled (mkObj, Kernel.hidden) and compared with the real code; for histories with such phases every logged OS call still carries the asking object's PID, never a PID <= 0, and reaches the right incarnation whenever the object's start time is known (C01_known_start_no_wrong_owner, all histories), while an object with unknown start passes the guard whenever the PID's current holder is unreadable too (C01_unknown_start_counterexample, witness replayed on the real code). The object list of a history holds the objects built by Process(pid) and those built and yielded by process_iter() (cached handles of recycled PIDs included), with oneshot() entry/exit as explicit no-op calls. The proofs hold for the configuration extracted by the translator (cfg_good: guard before every effect, `_gone` test in _raise_if_pid_reused, BOOT_TIME written once); for the two defective configurations the counterexamples are proved (C01_gone_counterexample, C01_bootrewrite_counterexample). Tie: ast-extracted facts + differential run of real psutil.Process objects over a fake procfs with recording OS entry points.",
+    "level_text": "Machine-checked Lean 4 proof over a model of psutil's process-identity machinery (Process._init/_get_ident/create_time/is_running/_raise_if_pid_reused/_send_signal/setters + _pslinux boot_time/BOOT_TIME) and a simulated kernel: by induction over ALL histories of spawn/exit/reap/PID-reuse/tick/clock-step events and interleaved psutil calls, every effect in the log was delivered to the incarnation the asking object was built for, under exactly the object's PID, signals never to PID<=0 (C01_no_wrong_owner, C01_never_group), a call adds at most one effect carrying exactly the requested signal/values (C01_exact_args, signalMap_correct), a call through an object whose incarnation lost its PID raises NoSuchProcess(pid) and leaves the log unchanged — the kernel is not even asked — (C01_recycled_raises_NSP), and a live incarnation is not refused (C01_live_signal_delivered). The kernel's permission outcome is an input of every effect (histories contain events that make the kernel refuse a PID with EPERM or EACCES and allow it again): a refused os.kill / setpriority / ioprio_set / sched_setaffinity / prlimit is logged as an attempt with its errno, so C01_no_wrong_owner and C01_exact_args also cover what psutil ASKED the kernel for; on a live incarnation exactly one attempt is made and the caller gets AccessDenied(pid) instead of a normal return (C01_live_signal_delivered / C01_live_setter_applied, parametrised by the kernel's answer); in any state a call returns normally iff one OS call was made and carried out, a refused one is AccessDenied(pid), nothing is retried (C01_outcome_truthful); a refusal sets no sticky flag (C02's theorems range over these histories). Outside the property's quantifier (characterisation, not findings): when /proc/pid/stat cannot be opened, Process._init keeps `_ident = (pid, None)` — modelled (mkObj, Kernel.hidden) and compared with the real code; for histories with such phases every logged OS call still carries the asking object's PID, never a PID <= 0, and reaches the right incarnation whenever the object's start time is known (C01_known_start_no_wrong_owner, all histories), while an object with unknown start passes the guard whenever the PID's current holder is unreadable too (C01_unknown_start_counterexample, witness replayed on the real code) — and ONLY then: over all histories with unreadable phases, for every object (start known or not) and whatever was called in between (create_time(), is_running(), process_iter() …), as soon as /proc/pid/stat of the PID opens at the moment of the call (PID free, or its new holder readable) a signal/setter through an object whose incarnation is gone raises NoSuchProcess(pid) and hands nothing to the OS, and every effect issued while the stat file opens reaches the object's own incarnation (C01_recycled_raises_NSP_readable, C01_effect_readable_right_owner); the model's premise that `_ident` is written at construction only is the translator obligation cfg_ident_writers, and the correspondence judges histories with unreadable phases by these clauses (not by the model alone). The object list of a history holds the objects built by Process(pid) and those built and yielded by process_iter() (cached handles of recycled PIDs included), with oneshot() entry/exit as explicit no-op calls. The proofs hold for the configuration extracted by the translator (cfg_good: guard before every effect, `_gone` test in _raise_if_pid_reused, BOOT_TIME written once); for the two defective configurations the counterexamples are proved (C01_gone_counterexample, C01_bootrewrite_counterexample). Tie: ast-extracted facts + differential run of real psutil.Process objects over a fake procfs with recording OS entry points.",
     "level_note": "Trusted: Lean kernel + {propext, Classical.choice, Quot.sound}; the translator; the correspondence harness; the simulated kernel/fake procfs; atomic calls (the inherent check-then-kill window is outside the model); exact arithmetic for create times; hypotheses btime != 0 and (main theorems) /proc/pid/stat always readable; permission refusals attached to the PID, ESRCH decided by the process table alone.",
     "technique": "Lean 4 invariant proof by induction over event histories (ghost incarnation ids) + translator-fed proof obligation + differential correspondence on generated and exhaustively enumerated short histories",
     "design_ref": "DESIGN.md §5 C01",
@@ -324,6 +324,43 @@ def _boot_stores_elsewhere(snap):
     return out
 
 
+def _ident_writers(snap):
+    """every function of the package that stores to an attribute named `_ident` — the identity tuple `(pid, create
+    time)` the reuse guard, `==` and `hash()` compare — as "file:Class.function" (sorted, unique): attribute stores in
+    any binding position (plain / augmented / annotated assignment, tuple unpacking, `for` / `with … as` / walrus
+    targets, `del`), `x.__dict__["_ident"]` stores, and `setattr` / `object.__setattr__` / `__dict__.update` /
+    `__setitem__` / `delattr` calls naming it.  The model keeps `PObj.ident` for the life of the object; the
+    obligation `cfg_ident_writers` requires this list to be exactly [Process._init]."""
+    out = set()
+    for fn in sorted(os.listdir(snap.pkg)):
+        if not fn.endswith(".py") or fn in ("_pswindows.py", "_psosx.py", "_psbsd.py", "_pssunos.py", "_psaix.py"):
+            continue
+        tree = ast.parse(snap.source(fn), filename=fn)
+
+        def visit(node, where):
+            for ch in ast.iter_child_nodes(node):
+                w = where
+                if isinstance(ch, (ast.FunctionDef, ast.AsyncFunctionDef, ast.ClassDef)):
+                    w = ch.name if where == "<module>" else where + "." + ch.name
+                hit = False
+                if isinstance(ch, ast.Attribute) and ch.attr == "_ident" and isinstance(ch.ctx, (ast.Store, ast.Del)):
+                    hit = True
+                if isinstance(ch, ast.Subscript) and isinstance(ch.ctx, (ast.Store, ast.Del)) \
+                        and isinstance(ch.slice, ast.Constant) and ch.slice.value == "_ident":
+                    hit = True
+                if isinstance(ch, ast.Call):
+                    last = extract.dotted(ch.func).split(".")[-1] if extract.dotted(ch.func) else ""
+                    if last in ("setattr", "__setattr__", "update", "__setitem__", "delattr", "__delattr__", "pop", "setdefault"):
+                        if any(isinstance(a, ast.Constant) and a.value == "_ident" for a in ast.walk(ch)) \
+                                or any(kw.arg == "_ident" for kw in ch.keywords):
+                            hit = True
+                if hit:
+                    out.add("%s:%s" % (fn, where))
+                visit(ch, w)
+        visit(tree, "<module>")
+    return sorted(out)
+
+
 def _create_boot(plat):
     """how `_pslinux.Process.create_time` obtains the boot time it adds — TOTAL: a string describing the shape.
     "or" = `BOOT_TIME or boot_time()` (truthiness: a cached 0.0 counts as unset), "isNotNone" = `BOOT_TIME if BOOT_TIME
@@ -479,6 +516,9 @@ def all_facts(snap, F, skip=()):
 
 def facts(snap, F):
     all_facts(snap, F)
+    # C01-only obligation (`cfg_ident_writers`); C02 calls `all_facts` directly
+    F.try_add("identWriters", "List String", lambda: extract.lean_list(_ident_writers(snap), extract.lean_str),
+              "functions of the package that store to an attribute named `_ident` (file:Class.function)")
 
 
 # ------------------------------------------------------------------------------ simulated kernel
@@ -529,6 +569,25 @@ def hyp_of(hist):
     """do the theorems' hypotheses hold for this history?  (btime != 0 — flag set by the generator — and
     /proc/<pid>/stat always readable: no `hide on` event; permission changes are inside the hypotheses)"""
     return bool(hist.get("hyp", True)) and not any(o["op"] == "hide" and o["on"] for o in hist["ops"])
+
+
+def bt_ok(hist):
+    """the published boot time is never 0 (`BtOK`; generators that leave this hypothesis set btime 0)"""
+    return hist["btime"] != 0 and not any(o["op"] == "setbtime" and o["b"] == 0 for o in hist["ops"])
+
+
+def judge_as(hist, prop):
+    """by which statement a history is judged: the property's full oracle inside the hypotheses (`HistOK`); for C01 in
+    histories with unreadable stat files (`HistOKb`: `hide` events anywhere, boot time never 0) the clauses that are
+    theorems there — "C01h": the any-state clauses (C01_exact_args, C01_outcome_truthful, negative PIDs, no effect by a
+    non-effect call, never a process group) and, whenever /proc/<pid>/stat of the object's PID OPENS at the moment of the
+    call, the recycling clause itself (C01_recycled_raises_NSP_readable / C01_effect_readable_right_owner); otherwise the
+    model only ("none")"""
+    if hyp_of(hist):
+        return prop
+    if prop == "C01" and bt_ok(hist) and any(o["op"] == "hide" for o in hist["ops"]):
+        return "C01h"
+    return "none"
 
 
 class SimPs:
@@ -741,7 +800,8 @@ class Impl:
         if i is None or i >= len(self.objs):
             return None
         pid = self.objs[i].pid
-        aux = {"pid": pid, "ghost": self.ghosts[i], "owner": self.kern.owner(pid)}
+        aux = {"pid": pid, "ghost": self.ghosts[i], "owner": self.kern.owner(pid),
+               "readable": pid not in self.kern.procs or pid not in self.kern.hidden}
         if j is not None and j < len(self.objs):
             aux["pid2"], aux["ghost2"] = self.objs[j].pid, self.ghosts[j]
         return aux
@@ -886,6 +946,8 @@ OTHER_CALLS = {
     "num_threads": lambda p, impl: p.num_threads(),
     "pid": lambda p, impl: p.pid,
     "children": lambda p, impl: p.children(),
+    # a public call that asks create_time() on the way (model: `Call.createTime` — it memoises `_create_time`)
+    "as_dict_ct": lambda p, impl: p.as_dict(attrs=["create_time", "name"]),
 }
 OTHER_NAMES = sorted(OTHER_CALLS)
 
@@ -941,7 +1003,10 @@ def spec_violation(op, im, effs, sp, prop):
                 return "process_iter() yielded a PID that is not in the process table"
             if ys != sorted(set(ys)):
                 return "process_iter() yielded a PID twice or out of order"
-    if prop == "C01" or prop is None:
+    if prop in ("C01", "C01h") or prop is None:
+        # "C01h": a history with unreadable stat files — the recycling clause speaks when the PID's stat file opens
+        # at the moment of the call (sp["readable"], Spec.StatOpens)
+        speaks = prop != "C01h" or bool(sp.get("readable"))
         if k == "new" and sp.get("exc") == "ValueError" and im != {"kind": "exc", "exc": "ValueError"}:
             return "negative pid must be rejected with ValueError"
         if k not in KERNEL_OPS and k not in ("signal", "setter") and effs:
@@ -954,7 +1019,7 @@ def spec_violation(op, im, effs, sp, prop):
                     return "signal sent to PID %d (a process group)" % e["pid"]
                 if e["pid"] != sp["pid"]:
                     return "effect on PID %d, object has PID %d" % (e["pid"], sp["pid"])
-                if e["owner"] != sp["ghost"]:
+                if speaks and e["owner"] != sp["ghost"]:
                     return "delivered to incarnation %r, object was built for incarnation %r" % (e["owner"], sp["ghost"])
                 want = sp.get("want_arg")
                 if e["kind"] != sp.get("want_kind"):
@@ -971,7 +1036,7 @@ def spec_violation(op, im, effs, sp, prop):
                     return "the OS carried the call out but the caller got %s" % im.get("exc")
             if not effs and im.get("kind") != "exc":
                 return "the call returned normally although nothing was handed to the OS"
-            if not sp["listed"]:
+            if not sp["listed"] and speaks:
                 if effs:
                     return "effect although the object's incarnation lost the PID"
                 if not (im.get("kind") == "exc" and im.get("exc") == "NoSuchProcess" and im.get("pid") == sp["pid"]):
@@ -1032,8 +1097,11 @@ def after_drift(result, n0, prop, sticky):
     concrete failing input, the rest of the history is judged by the specification evaluated on the implementation's
     own objects: ghost of an object = owner of its PID when the implementation built it (C02_ghost_meaning /
     C02_iter_ghost_meaning), recorded by `Impl._handle`; `owner` = owner of the PID when the call was made."""
-    if prop not in ("C01", "C02"):
+    if prop not in ("C01", "C01h", "C02"):
         return None
+    weak = prop == "C01h"
+    if weak:
+        prop = "C01"
     depth = {}
     sticky = dict(sticky)
     for n, (o, im, ie, mo, me, sp, aux) in enumerate(result["rows"]):
@@ -1046,6 +1114,7 @@ def after_drift(result, n0, prop, sticky):
             continue
         why = None
         listed = aux["owner"] is not None and aux["owner"] == aux["ghost"]
+        speaks = (not weak) or aux.get("readable", False)
         if prop == "C02":
             if k == "is_running" and im.get("kind") == "bool":
                 if im["v"] != listed:
@@ -1063,9 +1132,9 @@ def after_drift(result, n0, prop, sticky):
                     why = "signal sent to PID %d (a process group)" % e["pid"]
                 elif e["pid"] != aux["pid"]:
                     why = "effect on PID %d, object has PID %d" % (e["pid"], aux["pid"])
-                elif e["owner"] != aux["ghost"]:
+                elif speaks and e["owner"] != aux["ghost"]:
                     why = "delivered to incarnation %r, object was built for incarnation %r" % (e["owner"], aux["ghost"])
-            if not listed and not ie and not (im.get("kind") == "exc" and im.get("exc") == "NoSuchProcess"
+            if speaks and not listed and not ie and not (im.get("kind") == "exc" and im.get("exc") == "NoSuchProcess"
                                                and im.get("pid") == aux["pid"]):
                 why = "recycled/ended process: NoSuchProcess(%d) expected" % aux["pid"]
         if why:
@@ -1582,6 +1651,70 @@ def gen_history(rng, family, clk):
             poke()
         for i in range(P.nobj):
             P.ev(op="is_running", i=i)
+    elif family == "unknown_recycled":
+        # seeded C01-5 — INSIDE C01_recycled_raises_NSP_readable (judged "C01h"): the stat file is unreadable WHILE an
+        # object is built (`_ident = (pid, None)`), the process ends, the PID is recycled (1-3 times; the new holder
+        # live or a zombie; readable before / after / never), public calls in between (create_time(), as_dict(
+        # ['create_time']), hash, str, ==, ppid, children, wait, process_iter, Process(pid), is_running of OTHER
+        # objects), then signals / setters through every object: once the PID's stat file opens, a stale object must
+        # get NoSuchProcess and reach nobody — it may never adopt the new holder
+        P.ev(op="spawn", pid=p)
+        if rng.random() < 0.3:
+            P.ev(op="new", pid=p)                            # same incarnation, start known
+        P.ev(op="hide", pid=p, on=True)
+        P.ev(op="new", pid=p) if rng.random() < 0.7 else P.ev(op="process_iter")
+        u = P.nobj - 1
+
+        def between():
+            i = u if rng.random() < 0.7 else rng.randrange(P.nobj)
+            r = rng.random()
+            if r < 0.35:
+                P.ev(op="create_time", i=i)
+            elif r < 0.5:
+                P.ev(op="other", i=i, what=rng.choice(["as_dict_ct", "as_dict_ct", "as_dict", "wait", "name", "eq_self", "str",
+                                                         "hash", "cpu_times", "username"]))
+            elif r < 0.6:
+                P.ev(op="hash", i=i)
+            elif r < 0.68:
+                P.ev(op="status", i=i)
+            elif r < 0.76:
+                P.ev(op="ppid", i=i)
+            elif r < 0.84:
+                P.ev(op="eq", i=i, j=rng.randrange(P.nobj))
+            elif r < 0.9 and P.k.procs:
+                P.ev(op="process_iter")
+            elif r < 0.95:
+                P.ev(op="new", pid=p)
+            else:
+                P.ev(op="is_running", i=rng.randrange(P.nobj))
+        for _ in range(rng.randrange(0, 3)):
+            between()
+        for _ in range(rng.choice([1, 1, 1, 2, 3])):
+            early = rng.random() < 0.3
+            if early:
+                P.ev(op="hide", pid=p, on=False)
+            if rng.random() < 0.3:
+                P.ev(op="exit", pid=p)
+            P.ev(op="reap", pid=p)
+            P.tick()
+            if rng.random() < 0.85:
+                P.ev(op="spawn", pid=p)
+                if rng.random() < 0.2:
+                    P.ev(op="exit", pid=p)                   # the new holder is a zombie
+            if not early and rng.random() < 0.8:
+                P.ev(op="hide", pid=p, on=False)
+            for _ in range(rng.randrange(0, 3)):
+                between()
+            for _ in range(rng.randrange(1, 4)):
+                P.effect_call(u if rng.random() < 0.7 else rng.randrange(P.nobj))
+            if rng.random() < 0.4 and p in P.k.procs:
+                # another object built blind, on the new holder
+                P.ev(op="hide", pid=p, on=True)
+                P.ev(op="new", pid=p)
+                u = P.nobj - 1 if rng.random() < 0.5 else u
+        for i in range(P.nobj):
+            P.ev(op="is_running", i=i)
+        return P.hist(family, hyp=False)
     elif family == "btime0":
         # outside the hypothesis btime != 0: model correspondence only
         P = Plan(rng, 0, clk)
@@ -1668,7 +1801,8 @@ def sprinkle_oneshot(rng, h):
 
 FAMILIES = ["gone_path", "reuse_noquery", "reuse_zombie", "multi_recycle", "pid0", "clock_step", "coincidence",
             "live", "mixed", "oneshot_reuse", "iter_handles", "iter_mixed", "mixed", "iter_handles", "btime0",
-            "perm_paths", "perm_mixed", "unknown_start", "perm_paths", "wait_then_reuse", "wait_then_reuse"]
+            "perm_paths", "perm_mixed", "unknown_start", "perm_paths", "wait_then_reuse", "wait_then_reuse",
+            "unknown_recycled", "unknown_recycled"]
 
 
 def well_indexed(combo):
@@ -1835,6 +1969,35 @@ def exhaustive_hidden(maxlen, btime=1000):
             yield {"btime": btime, "ops": ops, "family": "exhaustive_hidden", "hyp": False}
 
 
+def exhaustive_unknown_recycled(maxlen, thorough=False, btime=1000):
+    """(judged "C01h") object 0 is built while the stat file of PID 5 is unreadable (`_ident = (5, None)`); all histories
+    head · w, |w| <= maxlen, for head = spawn·hide·Process(5) and head = spawn·hide·Process(5)·reap·spawn (already
+    recycled), over {stat readable, unreadable, create_time(0), is_running(0), kill(0), nice(0, 1), reap, spawn}
+    (thorough: + as_dict(['create_time'])(0), Process(5), kill(1)) that make the stat file readable at some point and
+    contain a signal / setter"""
+    p = 5
+    alphabet = [
+        {"op": "hide", "pid": p, "on": False}, {"op": "hide", "pid": p, "on": True}, {"op": "create_time", "i": 0},
+        {"op": "is_running", "i": 0}, {"op": "signal", "i": 0, "m": "kill", "sig": 0},
+        {"op": "setter", "i": 0, "k": "nice", "args": [1]}, {"op": "reap", "pid": p}, {"op": "spawn", "pid": p},
+    ]
+    if thorough:
+        alphabet += [{"op": "other", "i": 0, "what": "as_dict_ct"}, {"op": "new", "pid": p},
+                     {"op": "signal", "i": 1, "m": "kill", "sig": 0}]
+    base = [{"op": "spawn", "pid": p}, {"op": "hide", "pid": p, "on": True}, {"op": "new", "pid": p}]
+    for head in (base, base + [{"op": "reap", "pid": p}, {"op": "spawn", "pid": p}]):
+        for n in range(2, maxlen + 1):
+            for combo in itertools.product(alphabet, repeat=n):
+                if not any(o["op"] == "hide" and not o["on"] for o in combo):
+                    continue
+                if not any(o["op"] in ("signal", "setter") for o in combo):
+                    continue
+                ops = head + [dict(o) for o in combo]
+                if thorough and not well_indexed(ops):
+                    continue
+                yield {"btime": btime, "ops": ops, "family": "exhaustive_unknown_recycled", "hyp": False}
+
+
 def exhaustive_two_pids_iter(maxlen, btime=1000):
     """(thorough tier) all well-indexed histories of length 3..maxlen on two PIDs whose handles come from Process(5)
     or from process_iter(): {spawn 5, spawn 7, reap 5, Process(5), process_iter(), terminate(0), terminate(1),
@@ -1884,6 +2047,14 @@ def features(h, result):
             f.add("new_" + im["exc"])
         if k == "hide" and o["on"]:
             f.add("stat_hidden")
+        if k in ("signal", "setter") and "readable" in sp and any(x[0]["op"] == "hide" for x in result["rows"]):
+            # histories with unreadable phases: did the recycling clause speak for this call (C01h)?
+            if not sp["listed"]:
+                f.add("hidden:stale_call_stat_opens" if sp["readable"] else "hidden:stale_call_stat_unreadable(clause silent)")
+                if sp["readable"] and any(x[0]["op"] in ("create_time",) or x[0].get("what") == "as_dict_ct" for x in result["rows"]):
+                    f.add("hidden:stale_call_stat_opens_after_create_time")
+            elif sp["readable"]:
+                f.add("hidden:live_call_stat_opens")
         if k == "other":
             f.add("other:" + o["what"])
         if im.get("exc") == "AccessDenied" and k not in ("signal", "setter"):
@@ -1910,7 +2081,7 @@ def features(h, result):
 
 
 NONTRIVIAL = {"call_recycled_or_gone", "running_false", "clock_step", "eq_false", "eq_true", "value_error", "refused",
-              "stat_hidden",
+              "stat_hidden", "hidden:stale_call_stat_opens",
               "iter_skips_evicted_pid", "iter_handle_running_false", "iter_yields_cached_handle"}
 
 
@@ -1995,18 +2166,31 @@ def witness_corpus(clk):
         {"op": "signal", "i": 0, "m": "kill", "sig": 0}, {"op": "setter", "i": 0, "k": "nice", "args": [5]},
         {"op": "other", "i": 0, "what": "as_dict"}, {"op": "other", "i": 0, "what": "children"},
         {"op": "setter", "i": 0, "k": "affinity", "args": [0]}, {"op": "is_running", "i": 0}]}
-    return [l1, l2, l2b, it, it2, aff, perm, u1, u2, u3, w1]
+    # seeded C01-5 (Props/C01.lean, example after C01_effect_readable_right_owner): an object built blind, the PID
+    # recycled by a readable process, create_time() / as_dict(['create_time']) asked in between, then every kind of
+    # signal / setter: NoSuchProcess, nothing delivered (judged "C01h": C01_recycled_raises_NSP_readable)
+    u4 = {"btime": 1000, "family": "corpus:unknown-start-recycled-readable", "hyp": False, "ops": [
+        {"op": "spawn", "pid": 7}, {"op": "hide", "pid": 7, "on": True}, {"op": "new", "pid": 7}, {"op": "reap", "pid": 7},
+        {"op": "spawn", "pid": 7}, {"op": "hide", "pid": 7, "on": False}, {"op": "create_time", "i": 0},
+        {"op": "signal", "i": 0, "m": "kill", "sig": 0}, {"op": "other", "i": 0, "what": "as_dict_ct"},
+        {"op": "setter", "i": 0, "k": "nice", "args": [5]}, {"op": "signal", "i": 0, "m": "send", "sig": 10},
+        {"op": "setter", "i": 0, "k": "affinity", "args": []}, {"op": "setter", "i": 0, "k": "ionice", "args": [2, 4]},
+        {"op": "setter", "i": 0, "k": "rlimit", "args": [7, 1024, 1024]}, {"op": "is_running", "i": 0},
+        {"op": "new", "pid": 7}, {"op": "signal", "i": 1, "m": "terminate", "sig": 0}]}
+    return [l1, l2, l2b, it, it2, aff, perm, u1, u2, u3, u4, w1]
 
 
 def correspond_for(ctx, res, prop, driver_file, n_quick, n_thorough):
     impl = Impl(ctx)
     try:
         res.rule = ("histories of simulated kernel events (incl. permission changes: the kernel refuses a PID with EPERM/EACCES) "
-                    "and psutil calls from 16 clause-directed families "
+                    "and psutil calls from 17 clause-directed families "
                     "(PRNG from VERIF_SEED) + the lead witnesses + exhaustive sweeps of short histories; "
                     "non-trivial = the history contains a signal/setter through an object whose incarnation lost "
                     "its PID, an is_running() that must be False, a clock step, a == between objects, a rejected argument, "
-                    "an OS call the kernel refused, or (outside the hypotheses, model comparison only) an unreadable stat file; "
+                    "an OS call the kernel refused, or an unreadable stat file (outside HistOK: compared with the model, and judged by the "
+                    "clauses proved for such histories — any-state clauses + the recycling clause whenever the PID's stat file opens at the "
+                    "moment of the call); "
                     "distinct = distinct op sequences")
         hists = witness_corpus(impl.clk)
         n = ctx.n(n_quick, n_thorough)
@@ -2021,6 +2205,10 @@ def correspond_for(ctx, res, prop, driver_file, n_quick, n_thorough):
         hists.extend(exhaustive_perm(4 if ctx.tier == "quick" else 5))
         hists.extend(exhaustive_wait(4 if ctx.tier == "quick" else 5))
         hists.extend(exhaustive_hidden(4 if ctx.tier == "quick" else 5))
+        hists.extend(exhaustive_unknown_recycled(4 if ctx.tier == "quick" else 5))
+        if ctx.tier != "quick":
+            hists.extend(h for h in exhaustive_unknown_recycled(4, thorough=True)
+                         if any(o.get("what") == "as_dict_ct" or o["op"] == "new" or o.get("i") == 1 for o in h["ops"][3:]))
         if ctx.tier != "quick":
             hists.extend(exhaustive_two_pids_iter(6))
         total_lines = 0
@@ -2045,7 +2233,7 @@ def correspond_for(ctx, res, prop, driver_file, n_quick, n_thorough):
                               "impl": [[x[1], x[2]] for x in r["rows"]]}
                 res.case((h["btime"], h["ops"]), nontrivial=bool(feats & NONTRIVIAL), sample=sample)
                 drift = []
-                pr = first_problem(r, prop if hyp_of(h) else "none", drift)
+                pr = first_problem(r, judge_as(h, prop), drift)
                 if drift:
                     res.count("drift:setter_validation", len(drift))
                 if pr:
@@ -2065,7 +2253,10 @@ def correspond_for(ctx, res, prop, driver_file, n_quick, n_thorough):
                           "containing a refusal; all histories spawn·Process·w, |w| <= same bound, over {wait(0) on object 0, as_dict(0), "
                           "children(0), exit, reap, spawn, kill(0), nice(0), is_running(0)} containing a wait(0); (model comparison only, outside the hypotheses) all well-indexed histories spawn·w, "
                           "2 <= |w| <= %d, over {stat of PID 5 unreadable, readable, Process(5), reap, spawn, is_running(0), kill(0), ==(0,1)} "
-                          "containing an unreadable phase%s; the random families are samples"
+                          "containing an unreadable phase; (judged by C01_recycled_raises_NSP_readable) all histories head·w, 2 <= |w| <= the "
+                          "same bound, head = spawn·unreadable·Process(5) or spawn·unreadable·Process(5)·reap·spawn (object 0 has no start "
+                          "time), over {stat readable, unreadable, create_time(0), is_running(0), kill(0), nice(0), reap, spawn} with a "
+                          "readable phase and a signal/setter%s; the random families are samples"
                           % (len(hists) - n_rand, maxlen, maxlen, 4 if ctx.tier == "quick" else 5, 4 if ctx.tier == "quick" else 5,
                              4 if ctx.tier == "quick" else 5, 4 if ctx.tier == "quick" else 5,
                              "" if ctx.tier == "quick" else "; all well-indexed histories of length 3..6 over {spawn 5, spawn 7, reap 5, "
@@ -2087,7 +2278,7 @@ def search(ctx, res, broken):
 
 def _fails(ctx, impl, hist, prop, driver_file):
     results, _ = run_histories(ctx, impl, [hist], driver_file)
-    pr = first_problem(results[0], prop if hyp_of(hist) else "none")
+    pr = first_problem(results[0], judge_as(hist, prop))
     return pr if (pr and pr[0] == "spec") else None
 
 
